@@ -268,15 +268,15 @@ Definition has_naks (s : rstate) : bool :=
   end.
 
 (* the fail-the-rest loop of finalize_receive *)
-Fixpoint exec_requests (fs : FS) (fail_rest : bool) (reqs : list fsreq) : FS * list fsresp :=
+Fixpoint run_requests (fs : FS) (fail_rest : bool) (reqs : list fsreq) : FS * list fsresp :=
   match reqs with
   | [] => (fs, [])
   | r :: t =>
       if fail_rest then
-        let '(fs', rs) := exec_requests fs true t in (fs', not_performed r :: rs)
+        let '(fs', rs) := run_requests fs true t in (fs', not_performed r :: rs)
       else
         let '(fs1, rep) := fs_exec fs r in
-        let '(fs', rs) := exec_requests fs1 (resp_fail rep) t in (fs', rep :: rs)
+        let '(fs', rs) := run_requests fs1 (resp_fail rep) t in (fs', rep :: rs)
   end.
 
 Definition finalize_receive (now : N) (s : rstate) : rstate :=
@@ -311,7 +311,7 @@ Definition finalize_receive (now : N) (s : rstate) : rstate :=
       end in
     if go then
       let reqs := match r_meta s with Some m => md_reqs m | None => [] end in
-      let '(fs', resps) := exec_requests (r_fs s) false reqs in
+      let '(fs', resps) := run_requests (r_fs s) false reqs in
       let s := set_r_resps resps (set_r_fs fs' s) in
       emit_ind (IFinished (generate_report s) (r_fstat s) (r_dc s) resps) s
     else s
